@@ -299,6 +299,12 @@ func (c *Channel) Invoke(ctx context.Context, method string, req, resp interface
 			}
 			switch {
 			case r.err != nil:
+				if err := ctx.Err(); err != nil {
+					// as above: frames before this one (headers, trailers) may
+					// have been dropped, and the handler's status without them
+					// would be neither the real result nor the cancellation
+					return internal.TranslateContextError(err)
+				}
 				return r.err
 			case r.data != nil:
 				if gotResponse {
